@@ -44,6 +44,148 @@ def _aggs(fn, adt_suffix):
     return out
 
 
+def _vcd_table(f):
+    """{variant: {(mask bit, payload bit)}} over all acyclic paths of Value::to_vcd_value; a bit left untested on a path counts for both values"""
+    import itertools
+
+    def lname(l):
+        return "L%d" % l
+
+    def sym_place(env, pl):
+        l, proj = pl[0], pl[1]
+        cur = env.get(l, ("loc", lname(l)))
+        for q in proj:
+            if isinstance(q, list) and q[0] == "f":
+                if cur[0] == "tuple" and isinstance(q[1], int) and q[1] < len(cur[1]):
+                    cur = cur[1][q[1]]
+                else:
+                    cur = ("field", cur, str(q[2]))
+            elif q == "*" or (isinstance(q, list) and q[0] == "*"):
+                continue
+            else:
+                cur = ("proj", cur, repr(q))
+        return cur
+
+    def sym_op(env, op):
+        if op[0] == "k":
+            k = op[1]
+            return ("const", str(k.get("int", k.get("v", k.get("str", "?")))) if isinstance(k, dict) else str(k))
+        return sym_place(env, op[1])
+
+    def flat(x):
+        return repr(x)
+
+    def bit_of(sym, truth):
+        """(which, value) when `sym == truth` decides bit i of mask_xz / payload"""
+        t = truth
+        cur = sym
+        for _ in range(6):
+            if cur[0] == "bin" and cur[1] in ("Eq", "Ne") and (cur[3][0] == "const" or cur[2][0] == "const"):
+                c, other = (cur[3], cur[2]) if cur[3][0] == "const" else (cur[2], cur[3])
+                if c[1] not in ("0", "1"):
+                    return None
+                same = (cur[1] == "Eq")
+                t = t if (same == (c[1] == "1")) else (not t)
+                cur = other
+                continue
+            if cur[0] == "un" and cur[1] == "Not":
+                t = not t
+                cur = cur[2]
+                continue
+            break
+        txt = flat(cur)
+        has_m = "mask_xz" in txt
+        has_p = "payload" in txt
+        if has_m == has_p:
+            return None
+        if "L2" not in txt:
+            return ("noindex", txt)
+        is_bit = (cur[0] == "call" and re.search(r"::bit$", cur[1])) or (cur[0] == "bin" and cur[1] == "BitAnd" and "'Shr'" in txt and "('const', '1')" in txt)
+        if not is_bit:
+            return None
+        return ("M" if has_m else "P", t)
+
+    rets = f.returns()
+    table, unknown = {}, []
+    try:
+        paths = flow.enumerate_paths(f, 0, rets, limit=4000)
+    except OverflowError:
+        return {}, 0, ["too many paths"]
+    for path in paths:
+        env, bits, var = {}, {}, None
+        blocks = [b for b, _ in path] + ([path[-1][1]] if path else [0])
+        nxt = {b: sc for b, sc in path}
+        bad = None
+        for b in blocks:
+            for st in f.blocks[b]["s"]:
+                if st[0] != "=":
+                    continue
+                dl, dproj = st[1][0], st[1][1]
+                rv = st[2]
+                if rv[0] == "use":
+                    v = sym_op(env, rv[1])
+                elif rv[0] in ("ref", "ptr"):
+                    v = sym_place(env, rv[2])
+                elif rv[0] == "cast":
+                    v = sym_op(env, rv[2]) if len(rv) > 2 and isinstance(rv[2], list) else ("opaque", repr(rv))
+                elif rv[0] == "bin":
+                    v = ("bin", rv[1], sym_op(env, rv[2]), sym_op(env, rv[3]))
+                elif rv[0] == "un":
+                    v = ("un", rv[1], sym_op(env, rv[2]))
+                elif rv[0] == "agg":
+                    d = rv[1]
+                    if isinstance(d, dict) and (d.get("adt") or "").endswith("vcd::value::Value"):
+                        v = ("vcd", d.get("variant"))
+                    elif d == "tuple" or (isinstance(d, dict) and d.get("tuple")) or (isinstance(d, str) and "tuple" in d):
+                        v = ("tuple", [sym_op(env, o) for o in rv[2]])
+                    else:
+                        v = ("opaque", repr(rv)[:80])
+                elif rv[0] == "discr":
+                    v = ("discr",)
+                else:
+                    v = ("opaque", repr(rv)[:80])
+                if not dproj:
+                    env[dl] = v
+                    if dl == 0 and v[0] == "vcd":
+                        var = v[1]
+                    elif dl == 0:
+                        var = env[0][1] if env[0][0] == "vcd" else var
+            t = f.blocks[b]["t"]
+            sc = nxt.get(b)
+            if t["t"] == "call" and not t["dst"][1]:
+                env[t["dst"][0]] = ("call", t.get("callee") or "?", tuple(sym_op(env, a) for a in t["args"]))
+            elif t["t"] == "sw" and sc is not None and not t.get("enum"):
+                on = t["on"]
+                if on[0] == "k":
+                    continue
+                sy = sym_place(env, on[1])
+                if len(t["vals"]) == 1 and str(t["vals"][0][0]) in ("0", "1"):
+                    zero = str(t["vals"][0][0]) == "0"
+                    truth = (sc != t["vals"][0][1]) if zero else (sc == t["vals"][0][1])
+                    r = bit_of(sy, truth)
+                    if r is None:
+                        txt = flat(sy)
+                        if "mask_xz" in txt or "payload" in txt:
+                            bad = "branch on %s not understood" % txt[:120]
+                        continue
+                    if r[0] == "noindex":
+                        bad = "a bit other than bit i is tested: %s" % r[1][:120]
+                        continue
+                    if r[0] in bits and bits[r[0]] != r[1]:
+                        bits["infeasible"] = True
+                    bits[r[0]] = r[1]
+        if bits.get("infeasible"):
+            continue
+        if env.get(0, ("?",))[0] == "vcd":
+            var = env[0][1]
+        if bad or var is None:
+            unknown.append(bad or "no vcd::Value assigned to the return place on a path")
+            continue
+        for m, p in itertools.product([bits["M"]] if "M" in bits else [True, False], [bits["P"]] if "P" in bits else [True, False]):
+            table.setdefault(var, set()).add((m, p))
+    return table, len(paths), unknown
+
+
 def run(world, tier, info, only=None):
     ck = Check("C36", tier, "proof", RULE, only)
     w = world
@@ -66,34 +208,22 @@ def run(world, tier, info, only=None):
     f = Fn(w.mir(VCD))
     mf = MustFacts(f)
     sem = Sem(f, 14)
-    table = {}
-    for bi, b in enumerate(f.blocks):
-        if b.get("cu"):
-            continue
-        for st in b["s"]:
-            if st[0] == "=" and st[1] == [0, []] and st[2][0] == "agg" and isinstance(st[2][1], dict) and (st[2][1].get("adt") or "").endswith("vcd::value::Value"):
-                facts = sem.facts(mf.at_entry(bi))
-                m = p = None
-                for x in facts:
-                    if x[0] == "call" and re.search(r"BigUint::bit$", x[1] or ""):
-                        src = repr(x[3][0])
-                        if "Value::mask_xz" in src and "Value::payload" not in src:
-                            m = x[2]
-                        elif "Value::payload" in src and "Value::mask_xz" not in src:
-                            p = x[2]
-                table[st[2][1].get("variant")] = (m, p, st[3])
+    # every path to the return is interpreted with path-local definitions: which vcd variant is produced under which truth of
+    # "bit i of mask_xz" and "bit i of payload" - whatever way the bits are read (accessor + BigUint::bit, shift-and-mask on the u64
+    # arm, a match on the pair)
+    table, n_paths, unknown = _vcd_table(f)
     want = {"Z": (True, True), "X": (True, False), "V1": (False, True), "V0": (False, False)}
     for v, (m, p) in want.items():
-        got = table.get(v)
-        ok = got is not None and (got[0], got[1]) == (m, p)
-        ck.ob("R3", "to_vcd_value/" + v, ok, site(s, got[2] if got else None),
-              "vcd %s is produced exactly under mask_xz.bit(i)=%s, payload.bit(i)=%s" % (v, m, p) if ok else
-              "vcd %s is produced under (mask,payload)=%s, expected %s" % (v, got[:2] if got else "never", (m, p)))
-    # both bit() calls index with the function's own argument i
-    for bi, t in f.calls(r"BigUint::bit$"):
-        r, pth = flow.access_path(f, t["args"][1])
-        ck.ob("R3", "to_vcd_value/bit-index@%d" % _ordinal(f, r"BigUint::bit$", bi), r == ("arg", 2) and pth == (), site(s, t["l"]), "the bit tested is bit i of the value (found %s)" % flow.fmt_path((r, pth), f))
-    ck.floor("R3", "bit() tests in to_vcd_value", len(f.calls(r"BigUint::bit$")), 3)
+        got = sorted(table.get(v, set()), key=repr)
+        if unknown and not got:
+            ck.ob("R3", "to_vcd_value/" + v, None, site(s), "cannot interpret %d path(s) of to_vcd_value (%s)" % (len(unknown), unknown[0]))
+            continue
+        ok = got == [(m, p)]
+        ck.ob("R3", "to_vcd_value/" + v, ok, site(s),
+              "vcd %s is produced exactly under mask_xz bit i = %s, payload bit i = %s (%d paths interpreted)" % (v, m, p, n_paths) if ok else
+              "vcd %s is produced under (mask bit, payload bit) = %s, expected %s" % (v, got if got else "never", (m, p)))
+    ck.ob("R3", "to_vcd_value/paths-interpreted", None if unknown else True, site(s),
+          "every path tests bit i of mask_xz and of payload as far as needed" if not unknown else "paths not interpreted: %s" % unknown[:2])
 
     # ---------------- R1 / R2 encode ------------------------------------------------------------------------
     def leaf_pm(adt, field):
